@@ -182,184 +182,7 @@ func (x *rx) doFetch() {
 	isDB := func(e ast.Expr) bool { return dbParam != nil && core.ObjOf(x.info, c07.Strip(x.info, e)) == dbParam }
 	x.selectRules("doFetch", g, g.Entry(), nil, x.fieldObj("previousDb"), prev, isDB, x.cmdNode("Do", "SELECT"), scans, nil)
 
-	// R4: pipelines
-	dumpS, pttlS := g.Points(x.cmdNode("Send", "DUMP")), g.Points(x.cmdNode("Send", "PTTL"))
-	var keyChanSend *ast.SendStmt
-	core.Inspect(body, func(n ast.Node) bool {
-		if s, ok := n.(*ast.SendStmt); ok && x.field(s.Chan) == "keyChan" {
-			keyChanSend = s
-		}
-		return true
-	})
-	if len(dumpS) != 1 || len(pttlS) != 1 || keyChanSend == nil {
-		x.c.Undecidedf("R4.pipeline", "doFetch", fn.Decl.Pos(), "expected one Send(\"DUMP\"), one Send(\"PTTL\") and one send on keyChan; found %d/%d", len(dumpS), len(pttlS))
-		return
-	}
-	loopOf := func(n ast.Node) *ast.RangeStmt {
-		var r *ast.RangeStmt
-		for _, a := range core.PathTo(body, n) {
-			if rs, ok := a.(*ast.RangeStmt); ok {
-				r = rs
-			}
-		}
-		return r
-	}
-	ld, lp, lk := loopOf(dumpS[0].Node()), loopOf(pttlS[0].Node()), loopOf(keyChanSend)
-	if ld == nil || lp == nil || lk == nil {
-		x.c.Undecidedf("R4.pipeline", "doFetch", fn.Decl.Pos(), "DUMP/PTTL/keyChan sends are not each inside a range loop")
-		return
-	}
-	keys := core.ObjOf(x.info, lk.X)
-	x.c.Check("R4.align", "doFetch/same-slice", lk.Pos(), keys != nil && core.ObjOf(x.info, ld.X) == keys && core.ObjOf(x.info, lp.X) == keys,
-		"the DUMP pipeline, the PTTL pipeline and the loop that builds the KeyNodes must iterate the same key slice: otherwise reply i of one pipeline belongs to another key than keys[i] and keys receive foreign values/TTLs")
-	argIsVal := func(p cfgq.Point, rs *ast.RangeStmt, command string) bool {
-		for _, call := range cfgq.ExecCalls(p.Node()) {
-			if _, cm, recv := cmd(x.info, call); cm == command {
-				return len(call.Args) == 2 && rs.Value != nil && core.ObjOf(x.info, call.Args[1]) == core.ObjOf(x.info, rs.Value) && x.field(recv) == "sourceClient"
-			}
-		}
-		return false
-	}
-	x.c.Check("R4.pipeline", "doFetch/dump-per-key", dumpS[0].Node().Pos(), argIsVal(dumpS[0], ld, "DUMP"), "exactly `DUMP <key>` is pipelined to the source for every key of the page")
-	x.c.Check("R4.pipeline", "doFetch/pttl-per-key", pttlS[0].Node().Pos(), argIsVal(pttlS[0], lp, "PTTL"), "exactly `PTTL <key>` is pipelined to the source for every key of the page")
-	isDo := func(n ast.Node) bool {
-		for _, call := range cfgq.ExecCalls(n) {
-			if m, _, _ := cmd(x.info, call); m == "Do" {
-				return true
-			}
-		}
-		return false
-	}
-	w = g.Path(cfgq.Query{From: dumpS[0], After: true, Avoid: isDo, Target: x.cmdNode("Send", "PTTL")})
-	if w == nil {
-		w = g.Path(cfgq.Query{From: pttlS[0], After: true, Avoid: isDo, Target: x.cmdNode("Send", "DUMP")})
-	}
-	x.check("R4.pipeline", "doFetch/collect-between", ld.Pos(), w, "the replies of one pipeline must be collected (Do(\"\")) before the other pipeline is sent: otherwise DUMP and PTTL replies are mixed in one reply array and values/TTLs are attributed to the wrong keys")
-	// the KeyNode literal
-	cl, _ := ast.Unparen(keyChanSend.Value).(*ast.UnaryExpr)
-	var lit *ast.CompositeLit
-	if cl != nil {
-		lit, _ = ast.Unparen(cl.X).(*ast.CompositeLit)
-	}
-	if lit == nil || core.NamedTypeName(x.info.TypeOf(lit)) != "KeyNode" {
-		x.c.Undecidedf("R4.align", "doFetch/keynode", keyChanSend.Pos(), "the value sent on keyChan is not a &KeyNode{...} literal")
-		return
-	}
-	fields := map[string]ast.Expr{}
-	st := x.info.TypeOf(lit).Underlying().(*types.Struct)
-	for i, el := range lit.Elts {
-		if kv, ok := el.(*ast.KeyValueExpr); ok {
-			fields[kv.Key.(*ast.Ident).Name] = kv.Value
-		} else if i < st.NumFields() {
-			fields[st.Field(i).Name()] = el
-		}
-	}
-	idx := core.ObjOf(x.info, lk.Key)
-	// which slice came from which pipeline: reaching Do of the converter's argument
-	source := func(e ast.Expr, conv string) (string, bool) {
-		ix, ok := ast.Unparen(e).(*ast.IndexExpr)
-		if !ok || idx == nil || core.ObjOf(x.info, ix.Index) != idx {
-			return "", false
-		}
-		slice := core.ObjOf(x.info, ix.X)
-		for _, p := range g.Points(func(n ast.Node) bool { as, _ := c07.AssignsTo(x.info, n, slice); return as != nil }) {
-			_, rhs := c07.AssignsTo(x.info, p.Node(), slice)
-			if rhs != nil {
-				continue
-			}
-			as := p.Node().(*ast.AssignStmt)
-			call, ok := as.Rhs[0].(*ast.CallExpr)
-			if !ok {
-				continue
-			}
-			if f := core.CalleeFunc(x.info, call); f == nil || f.Name() != conv || len(call.Args) != 2 {
-				continue
-			}
-			reply := core.ObjOf(x.info, call.Args[0])
-			isDef := func(n ast.Node) bool { a, _ := c07.AssignsTo(x.info, n, reply); return a != nil }
-			for _, dp := range g.Points(func(n ast.Node) bool { return isDef(n) && isDo(n) }) {
-				if g.Path(cfgq.Query{From: dp, After: true, Avoid: isDef, Target: c07.IsNode(p.Node())}) == nil {
-					continue
-				}
-				fromDump := g.Path(cfgq.Query{From: dumpS[0], After: true, Avoid: isDo, Target: c07.IsNode(dp.Node())}) != nil
-				fromPttl := g.Path(cfgq.Query{From: pttlS[0], After: true, Avoid: isDo, Target: c07.IsNode(dp.Node())}) != nil
-				switch {
-				case fromDump && !fromPttl:
-					return "DUMP", true
-				case fromPttl && !fromDump:
-					return "PTTL", true
-				}
-			}
-		}
-		return "?", true
-	}
-	x.c.Check("R4.align", "doFetch/keynode-key", lit.Pos(), fields["key"] != nil && lk.Value != nil && core.ObjOf(x.info, fields["key"]) == core.ObjOf(x.info, lk.Value), "KeyNode.key must be the key of this iteration")
-	for _, f := range []struct{ field, conv, pipe string }{{"value", "Strings", "DUMP"}, {"pttl", "Int64s", "PTTL"}} {
-		src, sameIdx := "", false
-		if fields[f.field] != nil {
-			src, sameIdx = source(fields[f.field], f.conv)
-		}
-		switch {
-		case !sameIdx:
-			x.c.Failf("R4.align", "doFetch/keynode-"+f.field, lit.Pos(), "KeyNode.%s must be element [i] of the %s replies with i the index of this key in the key slice; found `%s`: keys receive the value/TTL of another key", f.field, f.pipe, x.c.Src(fields[f.field]))
-		case src == "?":
-			x.c.Undecidedf("R4.align", "doFetch/keynode-"+f.field, lit.Pos(), "cannot trace `%s` back to the Do(\"\") that collected the %s pipeline", x.c.Src(fields[f.field]), f.pipe)
-		default:
-			x.c.Check("R4.align", "doFetch/keynode-"+f.field, lit.Pos(), src == f.pipe, fmt.Sprintf("KeyNode.%s is taken from the replies of the %s pipeline, it must come from %s", f.field, src, f.pipe))
-		}
-	}
-	x.c.Check("R3.db", "doFetch/keynode-db", lit.Pos(), fields["db"] != nil && isDB(fields["db"]), "KeyNode.db must be the database being fetched")
-	// R4.keys: the slice is not modified between the pipelines; filter
-	isKeysAssign := func(n ast.Node) bool { a, _ := c07.AssignsTo(x.info, n, keys); return a != nil }
-	w = g.Path(cfgq.Query{From: dumpS[0], After: true, Avoid: isScan, Target: isKeysAssign})
-	x.check("R4.keys", "doFetch/stable-between-pipelines", ld.Pos(), w, "the key slice is modified after DUMP was pipelined for it: indexes of dumps/pttls no longer refer to the same keys")
-	filterF := x.c.LookupFunc("redis-shake/filter", "", "FilterKey")
-	if filterF == nil {
-		x.c.Undecidedf("R4.keys", "doFetch/filter", fn.Decl.Pos(), "filter.FilterKey not resolved")
-		return
-	}
-	var fl *ast.RangeStmt
-	var raw types.Object
-	for _, call := range x.calls(body, func(call *ast.CallExpr) bool { return core.CalleeFunc(x.info, call) == filterF.Obj }) {
-		fl = loopOf(call)
-	}
-	if as, ok := scans[0].Node().(*ast.AssignStmt); ok {
-		raw = core.ObjOf(x.info, as.Lhs[0])
-	}
-	if fl == nil || raw == nil || core.ObjOf(x.info, fl.X) != raw {
-		x.c.Undecidedf("R4.keys", "doFetch/filter", fn.Decl.Pos(), "no loop over the scanned keys applying FilterKey")
-		return
-	}
-	fh, fb := c07.RangeBlocks(g, fl)
-	kv := core.ObjOf(x.info, fl.Value)
-	isKeep := func(n ast.Node) bool {
-		b := pat.Stmt("_k = append(_k, _v)").Match(x.info, n, nil)
-		return b != nil && core.ObjOf(x.info, b["_k"].(ast.Expr)) == keys && core.ObjOf(x.info, b["_v"].(ast.Expr)) == kv
-	}
-	filtered := func(val bool) func(*cfg.Block, int) bool {
-		return func(b *cfg.Block, s int) bool {
-			return c07.EdgeFact(g, b, s, func(f cfgq.Fact) bool {
-				e := f.Expr
-				v := f.Val
-				if be, ok := ast.Unparen(e).(*ast.BinaryExpr); ok && (be.Op == token.EQL || be.Op == token.NEQ) {
-					if tv := x.info.Types[be.Y]; tv.Value != nil {
-						e, v = be.X, ((tv.Value.String() == "true") == (be.Op == token.EQL)) == f.Val
-					}
-				}
-				call, ok := ast.Unparen(e).(*ast.CallExpr)
-				return ok && core.CalleeFunc(x.info, call) == filterF.Obj && len(call.Args) == 1 && core.ObjOf(x.info, call.Args[0]) == kv && v == val
-			})
-		}
-	}
-	x.c.Check("R4.keys", "doFetch/kept-keys-appended", fl.Pos(), !c07.ReachBlock2(g, cfgq.Point{B: fb}, isKeep, filtered(true), fh),
-		"a scanned key that passes the key filter must be appended to the key slice: otherwise it is never dumped and never copied")
-	var wk []string
-	for _, p := range g.Points(isKeep) {
-		if wk == nil {
-			wk = g.Path(cfgq.Query{From: cfgq.Point{B: fb}, AvoidEdge: filtered(false), Target: c07.IsNode(p.Node())})
-		}
-	}
-	x.check("R4.keys", "doFetch/filtered-keys-dropped", fl.Pos(), wk, "a key rejected by the key filter is still appended to the key slice and copied")
+	x.pipelines(fn, g, scans, isScan, isDB)
 }
 
 func (x *rx) scannerMethod(name string) *types.Func {
@@ -579,7 +402,21 @@ func (x *rx) errors() {
 		if len(calls) == 0 {
 			x.c.Undecidedf("R6.error", s.m+"/"+s.name, fn.Decl.Pos(), "no %s call found in %s", s.name, s.m)
 		}
+		regs := map[*ast.CallExpr]*region{}
+		if s.m == "doFetch" && s.name == "Do" && x.pipeReg != nil && x.pipeReg.call != nil {
+			for _, call := range x.calls(x.pipeReg.fn.Decl.Body, s.pred) {
+				calls = append(calls, call)
+				regs[call] = x.pipeReg
+			}
+			c07.ErrCheck(x.c, x.g(s.m), x.info, fn.Decl.Body, x.pipeReg.call, c07.ErrSpec{Rule: "R6.error", Key: "doFetch/pipeline-helper", RetOK: true,
+				Consequence: "a failed DUMP/PTTL pipeline goes unnoticed: the page is silently not copied while the run reports success"})
+		}
 		for _, call := range calls {
+			if r := regs[call]; r != nil {
+				c07.ErrCheck(x.c, r.g, x.info, r.fn.Decl.Body, call, c07.ErrSpec{Rule: "R6.error", Key: "doFetch/Do:pipeline", RetOK: true,
+					Consequence: "the failed Do goes unnoticed: the page it concerns is silently not copied while the run reports success"})
+				continue
+			}
 			key := s.m + "/" + s.name
 			if _, cm, _ := cmd(x.info, call); cm != "" && s.name == "Do" {
 				key += ":" + cm
